@@ -1,6 +1,6 @@
 (* C05 — Negation is the exact complement and stays in solver-safe form.
    Only statements, `exact`, non-vacuity examples and Print Assumptions live here. *)
-Require Import Puan.Base Puan.Plog Puan.Sem Puan.NegateFacts.
+Require Import Puan.Base Puan.Plog Puan.Sem Puan.NegateFacts Puan.Cons Puan.SafeFacts.
 Open Scope string_scope.
 
 (* For EVERY id generator, every tree (any nesting, any value/sign, mixed atom/compound
@@ -37,3 +37,30 @@ Example C05_nonvacuous :
   List.length (children (negate c05_g c05_m)) = 2%nat.
 Proof. cbn. repeat split; lia. Qed.
 Print Assumptions C05_nonvacuous.
+
+(* Not(...), the constructor route (Cons.c_not is the model of Not.__new__, compared with the code on every run):
+   on a sub-proposition it is the complement of that sub-proposition; on an atom — str or puan.variable, whatever
+   its integer bounds — it is the complement of All(atom), i.e. true exactly when the atom's value is <= 0 *)
+Theorem C05_not_compound :
+  forall (genid : genid_t) (env : ident -> Z) (p : prop),
+    ok env p -> is_var p = false -> eval env (c_not genid p) = 1 - eval env p.
+Proof. exact not_compound. Qed.
+Print Assumptions C05_not_compound.
+
+Theorem C05_not_atom :
+  forall (genid : genid_t) (env : ident -> Z) (i : ident) (lo hi : Z),
+    (lo <= env i <= hi)%Z ->
+    eval env (c_not genid (Var i lo hi)) = (if (env i <=? 0)%Z then 1 else 0) /\
+    eval env (c_not genid (Var i lo hi)) = 1 - eval env (c_all genid None [Var i lo hi]).
+Proof.
+  intros genid env i lo hi H. split; [exact (not_atom genid env i lo hi H)|].
+  exact (not_complement genid env (Var i lo hi) H).
+Qed.
+Print Assumptions C05_not_atom.
+
+(* non-vacuity: x in (-2,3): Not(x) is 1 at x = -1 and x = 0, and 0 at x = 1 *)
+Example C05_not_atom_nonvacuous :
+  let n := c_not c05_g (Var "x" (-2) 3) in
+  eval (fun _ => -1) n = 1 /\ eval (fun _ => 0) n = 1 /\ eval (fun _ => 1) n = 0 /\ eval (fun _ => 3) n = 0.
+Proof. vm_compute. repeat split; reflexivity. Qed.
+Print Assumptions C05_not_atom_nonvacuous.
